@@ -477,8 +477,24 @@ func sameInts(a, b []int) bool { return fmt.Sprint(a) == fmt.Sprint(b) }
 // It returns a description of the first accessor that contradicts the logical package.
 func stateOracle(p *pkg, E []part, s *snapshot) (bool, string) {
 	n := len(E)
-	if s.count != n || s.pageCount != n {
-		return false, fmt.Sprintf("part count %d / PageCount %d, %d parts are declared and readable", s.count, s.pageCount, n)
+	// page j shows the text of E[at[j]], or of no part at all when at[j] < 0 (a text-less part)
+	slot := p.slots()
+	nP := len(p.pages())
+	at := make([]int, nP)
+	for j := range at {
+		at[j] = -1
+	}
+	for i, j := range slot {
+		at[j] = i
+	}
+	wantAt := func(j int) ([]int, string) {
+		if j < nP && at[j] >= 0 {
+			return []int{at[j]}, fmt.Sprintf("exactly [%d] = %s", at[j], E[at[j]].Tok)
+		}
+		return []int{}, "none: a text-less part"
+	}
+	if s.count != nP || s.pageCount != nP {
+		return false, fmt.Sprintf("part count %d / PageCount %d, %d parts are declared and readable", s.count, s.pageCount, nP)
 	}
 	if p.Fmt == "xlsx" {
 		var want []string
@@ -492,9 +508,10 @@ func stateOracle(p *pkg, E []part, s *snapshot) (bool, string) {
 			return false, fmt.Sprintf("Sheet(i).Name = %q, declared %q", s.notes, want)
 		}
 	}
-	for i, t := range s.parts {
-		if got := tokenSeq(E, t); !sameInts(got, []int{i}) {
-			return false, fmt.Sprintf("part %d of the reader carries the text of declared part(s) %v (want exactly [%d] = %s)", i, got, i, E[i].Tok)
+	for j, t := range s.parts {
+		want, ws := wantAt(j)
+		if got := tokenSeq(E, t); !sameInts(got, want) {
+			return false, fmt.Sprintf("part %d of the reader carries the text of declared text-bearing part(s) %v (want %s)", j, got, ws)
 		}
 	}
 	if got := tokenSeq(E, s.text); !sameInts(got, upto(n)) || s.textErr != "" {
@@ -503,13 +520,14 @@ func stateOracle(p *pkg, E []part, s *snapshot) (bool, string) {
 	if got := tokenSeq(E, s.md); !sameInts(got, upto(n)) || s.mdErr != "" {
 		return false, fmt.Sprintf("Markdown() (err %q) carries the declared parts in order %v, want %v", s.mdErr, got, upto(n))
 	}
-	if len(s.doc) != n || s.docErr != "" {
-		return false, fmt.Sprintf("Document() has %d pages (err %q), %d parts are declared and readable", len(s.doc), s.docErr, n)
+	if len(s.doc) != nP || s.docErr != "" {
+		return false, fmt.Sprintf("Document() has %d pages (err %q), %d parts are declared and readable", len(s.doc), s.docErr, nP)
 	}
-	for i, t := range s.doc {
+	for j, t := range s.doc {
 		// (a page's text is read through its elements and through ExtractText: which parts, not how often)
-		if got := tokenSet(E, t); !sameInts(got, []int{i}) {
-			return false, fmt.Sprintf("Document().Pages[%d] carries the text of declared part(s) %v (want exactly [%d] = %s)", i, got, i, E[i].Tok)
+		want, ws := wantAt(j)
+		if got := tokenSet(E, t); !sameInts(got, want) {
+			return false, fmt.Sprintf("Document().Pages[%d] carries the text of declared text-bearing part(s) %v (want %s)", j, got, ws)
 		}
 	}
 	if p.Fmt == "pptx" {
@@ -628,7 +646,7 @@ func runSequence(c *hx.Ctx, p *pkg, k kase, path string, idx int) string {
 			return
 		}
 		defer rd.close()
-		n := len(E)
+		n := len(p.pages())
 		if !p.Oracle {
 			n = rd.count() // no verdict on the content: indices relative to what is presented
 		}
@@ -712,7 +730,7 @@ func runSequence(c *hx.Ctx, p *pkg, k kase, path string, idx int) string {
 			}
 			// the statement, on every accessor, after this call
 			now := takeSnapshot(rd)
-			if len(E) > 0 {
+			if len(p.pages()) > 0 {
 				ok, why := stateOracle(p, E, now)
 				h := history
 				c.Check("C18/"+f+"-order-after-calls", ok, k, func() string {
